@@ -250,7 +250,7 @@ class ExprBuilder:
             if p is not None:
                 kw["partition_by"] = p
             if e["f"]:
-                kw["filter"] = self.build(e["f"][0], top=True)
+                kw["filter"] = self.build(e["f"][0], top=True) if len(e["f"]) == 1 else [self.build(x, top=True) for x in e["f"]]
             if e["op"] == "len":
                 return pdt.count(**kw)
             x = self.build(e["a"][0], top=True)
